@@ -178,6 +178,7 @@ def classify(ctx, tr, bad):
                 L = 8 * len(e['m']) if e['bitlen'] < 0 else e['bitlen']
                 attrs = dict(scheme=sch['s'], clause=cl['c'], padding=e['padding'], empty_piece=(len(e['m']) == 0),
                              bits_before=before, bits_here=L, after_pad=flag, raised=e['raised'])
+                if any(p['op'] == 'preset' for p in tr['ev'][:rec['step']]): attrs['preset_counter'] = True
                 api = 'padding.%s.iterblocks' % sch['s']
             else:
                 attrs = dict(scheme=sch['s'], clause=cl['c'], raised=e['raised'], len_c=len(e['c']), blocklen=sch['B'],
@@ -229,6 +230,18 @@ def run(ctx):
                         if not big and sch['B'] > 16 and bo not in (0, 1, 7) and (k % 3): k += 1; continue
                         k += 1
                         traces.append(single(s, var, nblk, res, bo, k % 7, rnd, explicit=(k % 5 == 0)))
+    # length fields that need more than one word: the public bit counter is preset, then a final piece (and a continuation + final piece)
+    for s in ('md', 'sha', 'blake'):
+        for var in variants(s, big):
+            obj0, sch = make(s, *var); Bb = sch['B']; fw = 16 * sch['w']
+            for v in ((1 << 32) - 8 * Bb, 1 << 32, (1 << (fw // 2)) - 8 * Bb, 1 << (fw // 2), (1 << fw) - 16 * Bb, (1 << 32) + (1 << 35)):
+                for n in ((1, Bb - 1, Bb + 3) if big else (1, Bb + 3)):
+                    obj, _ = make(s, *var); obj.bitcnt = v
+                    e = run_iter(obj, content(rnd, n, 0), None, True)
+                    traces.append(dict(sch=sch, ev=[dict(op='preset', cnt=limbs(v, 8)), e], scen=dict(kind='preset', scheme=s, v=str(v), n=n)))
+                obj, _ = make(s, *var); obj.bitcnt = v
+                e1 = run_iter(obj, content(rnd, Bb, 0), None, False); e2 = run_iter(obj, content(rnd, 5, 0), None, True)
+                traces.append(dict(sch=sch, ev=[dict(op='preset', cnt=limbs(v, 8)), e1, e2], scen=dict(kind='preset+cont', scheme=s, v=str(v))))
     for s in ('pkcs7', 'x923'):
         for var in variants(s, big):
             for k2 in range(12 if big else 6):
